@@ -4,6 +4,7 @@
 #define _GNU_SOURCE
 #include <polyseed.h>
 #include <stdint.h>
+#include <time.h>
 #include <stddef.h>
 #include <stdio.h>
 #include <stdlib.h>
@@ -50,6 +51,7 @@ struct env {
     /* logs */
     unsigned long n_rand, n_time, n_alloc, n_free, n_mz, n_kdf, n_nfc, n_nfkd;
     unsigned long n_libc_malloc, n_libc_free, n_libc_time;
+    unsigned long n_alloc_tab[2], n_free_tab[2], n_mz_tab[2];   /* calls of the allocate / release / wipe entries per dependency table (A, B) */
     int last_table;           /* table id (0/1) of the last rand/time call */
     size_t last_rand_n; void *last_rand_p;
     size_t last_alloc_n; void *last_alloc_p;
@@ -75,7 +77,7 @@ void ledger_drop_all(void);     /* forget (and release) all live blocks - used w
 typedef struct obs {
     uint8_t store[32];
     uint64_t birthday;
-    unsigned feat[8];         /* polyseed_get_feature(seed, m) for m = 0..7 */
+    unsigned feat[12];        /* polyseed_get_feature(seed, m) for m = 0..7 and for masks with bits above the three user bits (OBS_HI_MASKS) */
     int enc;
     uint8_t kdf_pw[32]; size_t kdf_pwlen; uint8_t kdf_salt[32]; size_t kdf_saltlen; uint64_t kdf_iters; size_t kdf_keylen;
     uint64_t phrase_en, phrase_ko;   /* digests of polyseed_encode(seed, English / Korean, coin): a seed is also what it encodes to */
@@ -114,6 +116,7 @@ typedef void (*workfn)(long lo, long hi, struct res *r, void *arg);
 /* run f over [0,n) split into chunks over `workers` forked processes; merge into tot */
 void par_run(long n, workfn f, void *arg, struct res *tot);
 extern int G_workers;
+extern time_t E_libc_time_value;
 extern double G_deadline;       /* absolute monotonic seconds; 0 = none */
 double now_s(void);
 int past_deadline(void);
